@@ -365,7 +365,9 @@ def serial_path_oracle(ctx: Ctx, T, lines: list[str], trials: int) -> None:
                      "2309 003 0007D0", "30C9 003 0007D0", "30C9 006 0007D00107D0", "3B00 002 FCC8", "1F09 003 FF0514 # c", "1F09 003 FFFFFF"]
     good = [ln for ln in lines if ln and "\r" not in ln and "\n" not in ln][:300]
     dtm = "2024-01-01T12:00:00.000000"
-    for _ in range(trials):
+    from ramses_tx.command import Command  # noqa: PLC0415
+    futloop = asyncio.new_event_loop()
+    for trial in range(trials):
         T._global_sync_cycles.clear() if hasattr(T, "_global_sync_cycles") else None
         hist = []
         for _ in range(rng.randint(3, 12)):
@@ -374,6 +376,14 @@ def serial_path_oracle(ctx: Ctx, T, lines: list[str], trials: int) -> None:
                 hist.append(f"045  I --- {c} --:------ {c} {rng.choice(sync_variants)}")
             else:
                 hist.append(rng.choice(good))
+        # the echo of the transport's OWN start-up signature (a puzzle packet): once, and -- a slow gateway answers the second copy too, or late --
+        # again and again, among the other lines; and a stranger's puzzle packet
+        sig = Command._puzzle()
+        if trial % 2:
+            echo = "000 " + str(sig).replace("18:000730", "18:111111")
+            for _ in range(rng.choice([1, 2, 3])):
+                hist.insert(rng.randrange(len(hist) + 1), echo)
+            hist.insert(rng.randrange(len(hist) + 1), "045 " + str(Command._puzzle(message="someone else")).replace("18:000730", "18:222222"))
         stream = b"".join(h.encode("ascii", "replace") + b"\r\n" for h in hist)
         cuts = sorted(rng.sample(range(len(stream) + 1), min(3, len(stream) + 1)))
         chunks, prev = [], 0
@@ -388,14 +398,14 @@ def serial_path_oracle(ctx: Ctx, T, lines: list[str], trials: int) -> None:
         t._max_read_size = 4096
         t._inbound_rule = {}
         t._outbound_rule = {}
-        t._extra = {"active_gwy": None, "signature": None}
+        t._extra = {"active_gwy": None, "signature": sig.payload if trial % 2 else None}
         t._this_pkt = t._prev_pkt = None
         it = iter(chunks)
         t._serial = SimpleNamespace(read=lambda n: next(it))
         loop, proto = Loop(), Proto()
         t._loop = loop
         t._protocol = proto
-        t._init_fut = SimpleNamespace(done=lambda: True)
+        t._init_fut = futloop.create_future() if trial % 2 else SimpleNamespace(done=lambda: True)      # a real future: the handshake is still open
         escaped = None
         for _c in chunks:
             try:
